@@ -74,21 +74,27 @@ Definition combine (vs : list binary32) : binary32 :=
 Definition nth_index {A} (l : list A) (i : Z) : option A :=
   if i <? 0 then None else nth_error l (Z.to_nat i).
 
+(* confidence(): the statement list is REGENERATED from the source (Gen.C19Check.CONF_STEPS / CONF_POST) and interpreted here *)
+Definition flag_of (d : details) (f : cflag) : bool :=
+  match f with FNonCanonical => d_nc d | FNull => d_null d | FLow => d_low d | FPoison => d_poison d end.
+Definition eval_step (d : details) (s : cstep) : list binary32 :=
+  match s with
+  | CPush c => [f32c c]
+  | CIfPush f c => if flag_of d f then [f32c c] else []
+  | CIfMulPush f1 c1 f2 c2 =>
+      if flag_of d f1 then [if flag_of d f2 then b32_mult mode_NE (f32c c1) (f32c c2) else f32c c1] else []
+  | CNearby =>
+      if NEARBY_GUARD (d_nearby d)
+      then match nth_index NEARBY_REGISTER_c
+                   (NEARBY_INDEX (Z.of_nat (length NEARBY_REGISTER_c)) (d_nearby d)) with
+           | Some c => [f32c c]
+           | None => []      (* index / usize-underflow panic; unreachable, see c19_confidence_index_ok *)
+           end
+      else []
+  end.
 Definition confidence (d : details) : binary32 :=
-  let v0 := [f32c BASELINE_c] in
-  let v1 := if d_nc d then [f32c NON_CANONICAL_c] else [] in
-  let v2 := if d_null d
-            then [if d_low d then b32_mult mode_NE (f32c NULL_c) (f32c ORIGINAL_LOW_c) else f32c NULL_c]
-            else [] in
-  let v3 := if NEARBY_GUARD (d_nearby d)
-            then match nth_index NEARBY_REGISTER_c
-                         (NEARBY_INDEX (Z.of_nat (length NEARBY_REGISTER_c)) (d_nearby d)) with
-                 | Some c => [f32c c]
-                 | None => []      (* index / usize-underflow panic; unreachable, see c19_confidence_index_ok *)
-                 end
-            else [] in
-  let ret := combine (v0 ++ v1 ++ v2 ++ v3) in
-  if d_poison d then b32_mult mode_NE ret (f32c POISON_c) else ret.
+  fold_left (fun ret fc => if flag_of d (fst fc) then b32_mult mode_NE ret (f32c (snd fc)) else ret) CONF_POST
+            (combine (flat_map (eval_step d) CONF_STEPS)).
 Definition confidence_bits (d : details) : Z := bits_of_b32 (confidence d).
 
 (* ---------------------------------------------------------------- try_bit_flips *)
